@@ -38,6 +38,7 @@ class ExprMixin:
         ev.handlers = st.handlers
         ev.seq = len(st.trace)
         ev.stack = tuple(f.qual for f in st.stack)
+        ev.sites = st.sites
         st.trace.append(ev)
         self.nevents += 1
         return ev
@@ -219,6 +220,10 @@ class ExprMixin:
                 continue
             n = len(e.keys)
             ks, vs = vals[:n], vals[n:]
+            if n == 0:
+                s.nlist += 1
+                out.append((V('mdict', (), s.nlist), s))
+                continue
             if all(v.is_const for v in vals):
                 try:
                     out.append((C({k.val: v.val for k, v in zip(ks, vs)}), s))
@@ -602,20 +607,25 @@ class ExprMixin:
         s = st
         saved = dict(s.env)
         results = [s]
+        empty_iter = False
         for g in e.generators:
             nxt = []
             for s1 in results:
                 for it, s2 in self.eval(g.iter, s1):
                     if isinstance(it, Raise):
                         continue
+                    if it.k in ('tuple', 'list') and not it.a[0] and it.k != 'list' or \
+                            (it.k == 'list' and not it.a[0] and len(it.a) > 1 and it.a[1] and self._list_final(it, s2)):
+                        empty_iter = True
                     self.bind_loop_target(g.target, it, s2, g.iter)
                     ss = [s2]
                     for cond in g.ifs:
                         ss2 = []
                         for s3 in ss:
-                            for vals, s4 in self.eval_seq([cond], s3):
-                                ss2.append(s4)
-                        ss = ss2
+                            for truth, s4 in self.eval_test(cond, s3):
+                                if truth is True:
+                                    ss2.append(s4)     # only elements that pass the filter are produced
+                        ss = ss2 or ss
                     nxt.extend(ss)
             results = nxt
         out = []
@@ -631,9 +641,15 @@ class ExprMixin:
                                 s2.env.pop(n.id, None)
                 if isinstance(vals, Raise):
                     out.append((vals, s2))
+                elif empty_iter:
+                    out.append((tup(()), s2))      # comprehension over a container known to be empty
                 else:
                     out.append((V('comp', type(e).__name__, tuple(vals), id(e)), s2))
         return out or [(unk('comp'), st)]
+
+    def _list_final(self, lv, st):
+        """A tracked list value is only known-empty if it is the current content bound to some name."""
+        return any(v == lv for v in st.env.values())
 
     def e_ListComp(self, e, st):
         return self._comp(e, [e.elt], st)
